@@ -65,6 +65,7 @@ inline Opts parseOpts(int argc, char **argv) {
 struct Verdict {
   std::string cls;  // class key of the violation (predicate evaluated by the oracle)
   std::string msg;
+  std::string inst;  // optional: encoded sub-instance to replay instead of the whole (batch) instance
 };
 using Verdicts = std::vector<Verdict>;
 
@@ -91,7 +92,7 @@ inline uint64_t mix(uint64_t h, uint64_t v) {
 }
 
 // ---------------------------------------------------------------- shared memory
-struct ShmCounter { char name[56]; long long v; };
+struct ShmCounter { char name[160]; long long v; };
 struct Shm {
   volatile long long idx;       // instance currently evaluated (-1: none)
   volatile double start;        // when it started
@@ -113,7 +114,8 @@ class Ctx {
   std::map<std::string, int> classSeen;
   bool replaying = false;
 
-  void count(const std::string &name, long long n = 1) {
+  void count(const std::string &fullName, long long n = 1) {
+    std::string name = fullName.substr(0, 159);
     auto it = slot.find(name);
     int s;
     if (it == slot.end()) {
@@ -123,7 +125,7 @@ class Ctx {
       if (s < 0) {
         if (shm->nctr >= 96) return;
         s = shm->nctr;
-        strncpy(shm->ctr[s].name, name.c_str(), 55);
+        strncpy(shm->ctr[s].name, name.c_str(), 159);
         shm->ctr[s].v = 0;
         shm->nctr = s + 1;
       }
@@ -262,6 +264,12 @@ inline std::string classifyCrash(const std::string &err, int status) {
       k = k.substr(0, k.find(' '));
       kind = "asan-" + k;
     }
+    if (kind.empty() && (p = l.find("WARNING: ThreadSanitizer: ")) != std::string::npos) {
+      std::string k = l.substr(p + 26);
+      k = k.substr(0, k.find(" ("));
+      for (char &ch : k) if (ch == ' ') ch = '-';
+      kind = "tsan-" + k;
+    }
     if (kind.empty() && (p = l.find("runtime error: ")) != std::string::npos) {
       std::string k = l.substr(p + 15);
       // keep the first 4 words, drop numbers
@@ -303,7 +311,7 @@ inline std::string classifyCrash(const std::string &err, int status) {
     }
   }
   // first frame inside the library
-  if (func.empty() || kind == "glibcxx-assert" || kind.rfind("asan", 0) == 0 || kind.rfind("signal", 0) == 0) {
+  if (func.empty() || kind == "glibcxx-assert" || kind.rfind("asan", 0) == 0 || kind.rfind("signal", 0) == 0 || kind.rfind("tsan", 0) == 0) {
     std::string f2;
     for (const std::string &l : lines) {
       std::string f;
@@ -509,8 +517,8 @@ int runCheck(const Opts &o, Check<Inst> &c) {
           int &seen = ctx.classSeen[v.cls];
           ctx.count("violations:" + v.cls);
           if (seen < 4) {
-            fprintf(ctx.res, "V\t%s\t%s\t%s\n", Ctx::esc(v.cls).c_str(), Ctx::esc(c.encode(inst)).c_str(),
-                    Ctx::esc(v.msg).c_str());
+            fprintf(ctx.res, "V\t%s\t%s\t%s\n", Ctx::esc(v.cls).c_str(),
+                    Ctx::esc(v.inst.empty() ? c.encode(inst) : v.inst).c_str(), Ctx::esc(v.msg).c_str());
             fflush(ctx.res);
           }
           ++seen;
@@ -630,7 +638,7 @@ int runCheck(const Opts &o, Check<Inst> &c) {
   std::map<std::string, long long> cc;
   for (auto it = R.counters.begin(); it != R.counters.end();) {
     if (it->first.rfind("violations:", 0) == 0) {
-      cc[it->first.substr(11)] += it->second;
+      cc[it->first.substr(11)] += it->second;  // (class names longer than 148 chars are truncated in the counters)
       it = R.counters.erase(it);
     } else ++it;
   }
